@@ -378,6 +378,146 @@ pub fn c05_part(run: &RunInfo) -> Acc {
     acc
 }
 
+// ---------------------------------------------------------------- C06 part
+
+/// Faults in the firmware upload: every valid request prefix (incl. those after which every byte
+/// of the file has been sent) x every fault in the next slot, and faults in the place of the
+/// acknowledgement of the file list.
+pub fn c06_part(run: &RunInfo) -> Acc {
+    let table = shipped();
+    let codec = Codec::new(&table);
+    let root = scratch_root("c06");
+    let block = 8u32;
+    let dir = make_dir(&root, 0, &[(0x10, 17)], false, run.seed);
+    let req_ty = table.get("feig::RequestForData");
+    let reqs: Vec<Req> = vec![Req::Data { id: Some(0x10), offset: Some(0) }, Req::Data { id: Some(0x10), offset: Some(8) }, Req::Data { id: Some(0x10), offset: Some(16) }];
+    let req_bytes: Vec<Vec<u8>> = reqs.iter().map(|r| codec.encode(req_ty, &r.value()).expect("reference request")).collect();
+    let depth = if run.thorough() { 4 } else { 3 };
+    let mut words: Vec<Vec<usize>> = vec![vec![]];
+    let mut cur: Vec<Vec<usize>> = vec![vec![]];
+    for _ in 0..depth {
+        let mut next = vec![];
+        for w in &cur {
+            for r in 0..reqs.len() {
+                let mut x = w.clone();
+                x.push(r);
+                next.push(x);
+            }
+        }
+        words.extend(next.clone());
+        cur = next;
+    }
+    let completion = vec![0x06u8, 0x0f, 0x00];
+    // (label, bytes, complete packet?)
+    let mut faults: Vec<(String, Vec<u8>, bool)> = vec![
+        ("end-of-stream".into(), vec![], false),
+        ("nack-849a".into(), vec![0x84, 0x9a, 0x00], true),
+        ("nack-8400".into(), vec![0x84, 0x00, 0x00], true),
+        ("ack-in-reply-slot".into(), vec![0x80, 0x00, 0x00], true),
+        ("foreign-040f".into(), vec![0x04, 0x0f, 0x00], true),
+        ("foreign-04ff".into(), vec![0x04, 0xff, 0x01, 0x17], true),
+        ("foreign-06d1".into(), vec![0x06, 0xd1, 0x02, 0x00, 0x41], true),
+        ("neighbour-060e".into(), vec![0x06, 0x0e, 0x00], true),
+        ("neighbour-08d0".into(), vec![0x08, 0xd0, 0x00], true),
+        ("abort-without-code".into(), vec![0x06, 0x1e, 0x00], true),
+    ];
+    for cut in 1..completion.len() {
+        faults.push((format!("completion-cut-at-{cut}"), completion[..cut].to_vec(), false));
+    }
+    for cut in 1..req_bytes[0].len() {
+        faults.push((format!("request-cut-at-{cut}"), req_bytes[0][..cut].to_vec(), false));
+    }
+    {
+        // a data request whose announced container length exceeds its content
+        let mut b = req_bytes[0].clone();
+        assert_eq!(b[3..5], [0x06, 0x0b], "layout of the reference data request");
+        b[4] = 0x0c;
+        faults.push(("request-inner-length-too-long".into(), b, true));
+    }
+    let acc = par_for(words.len(), |ix, acc| {
+        let w = &words[ix];
+        for (label, fault, complete) in &faults {
+            for ack_slot in [false, true] {
+                if ack_slot && (!w.is_empty() || label == "ack-in-reply-slot") {
+                    continue;
+                }
+                for continued in [false, true] {
+                    if continued && !*complete {
+                        continue;
+                    }
+                    let mut incoming = vec![];
+                    if !ack_slot {
+                        incoming.extend(ACK);
+                    }
+                    let mut boundary = incoming.len();
+                    for i in w {
+                        incoming.extend(&req_bytes[*i]);
+                    }
+                    boundary += w.iter().map(|i| req_bytes[*i].len()).sum::<usize>();
+                    incoming.extend(fault);
+                    if continued {
+                        if ack_slot {
+                            incoming.extend(&completion);
+                        } else {
+                            incoming.extend(ACK);
+                            incoming.extend(&completion);
+                        }
+                    }
+                    let sh: Sh = Rc::new(RefCell::new(Ctx::new(vec![], vec![], 0)));
+                    let s = Scripted::new(sh, incoming.clone(), Chunking::Greedy);
+                    s.st.borrow_mut().eof_at = Some(incoming.len());
+                    let log = run_writefile(&dir.path, 123456, block, &s, None);
+                    let events = s.st.borrow().log.clone();
+                    acc.count("executions", 1);
+                    acc.count("fault_cases", 1);
+                    acc.count("transitions", (w.len() + 2) as u64);
+                    acc.set("outcomes", h64(&("WriteFile", w, label, ack_slot, continued)));
+                    let mut problems = vec![];
+                    if let Some(p) = &log.panic {
+                        problems.push(format!("the upload panicked: {p}"));
+                    } else {
+                        let k = w.len();
+                        let ok_items = log.items.iter().take_while(|i| i.is_ok()).count();
+                        if ok_items != k || log.items.len() != k + 1 || log.items.get(k).map(|i| i.is_ok()).unwrap_or(true) || !log.ended || log.polls_after_end_not_none > 0 {
+                            problems.push(format!("expected the {k} data requests as items, then exactly one error, then the end of the stream; got {:?} (ended={}, blocked={})", log.items.iter().map(|i| i.as_ref().map(|s| s.chars().take(30).collect::<String>()).map_err(|e| e.chars().take(60).collect::<String>())).collect::<Vec<_>>(), log.ended, log.blocked));
+                        }
+                        // nothing may be written once the offending bytes were read
+                        let mut seen = false;
+                        for e in &events {
+                            match e {
+                                Ev::Read(_, p) if *p > boundary => seen = true,
+                                Ev::Eof => seen = true,
+                                Ev::Write(wr) if seen => problems.push(format!("after the fault was read the upload still wrote {}", hex_short(wr))),
+                                _ => {}
+                            }
+                        }
+                        // the number of answers equals the number of requests served
+                        let writes = events.iter().filter(|e| matches!(e, Ev::Write(_))).count();
+                        if problems.is_empty() && writes != 1 + k {
+                            problems.push(format!("{writes} writes for the file list and {k} data requests"));
+                        }
+                    }
+                    if problems.is_empty() {
+                        acc.count("w_upload_fault_reported", 1);
+                        if w.contains(&2) && w.contains(&0) && w.contains(&1) {
+                            acc.count("w_upload_fault_after_last_byte", 1);
+                        }
+                    } else {
+                        let name: Vec<String> = w.iter().map(|i| reqs[*i].label()).collect();
+                        acc.violation(viol(
+                            format!("c06/WriteFile/prefix={}/{}={label}/continued={continued}", name.join(","), if ack_slot { "ack-slot" } else { "fault" }),
+                            format!("firmware upload of one 17-byte file, block size {block}\nrequests served before the fault: {}\nfault {label} ({}) in the {} slot, followed by {}\n{}\nevent log:\n{}", name.join(", "), hex_short(fault), if ack_slot { "acknowledgement" } else { "next reply" }, if continued { "a well-formed rest of the exchange" } else { "the end of the stream" }, problems.join("\n"), render_events(&events)),
+                            w.len() as u64,
+                        ));
+                    }
+                }
+            }
+        }
+    });
+    let _ = std::fs::remove_dir_all(&root);
+    acc
+}
+
 // ---------------------------------------------------------------- C11
 
 pub fn run_c11(run: &RunInfo) -> Summary {
@@ -530,6 +670,14 @@ pub fn run_c11(run: &RunInfo) -> Summary {
                 }
             }
         }
+        // every block size 1..=300 (every length the data container and its enclosing containers
+        // can take up to beyond the 127/128 and 254/255/256 switches), on a file no block size divides
+        {
+            let d = make_dir(&root, k, &[(0x11, 613), (0x23, 307)], false, run.seed);
+            for b in 1..=300u32 {
+                seq_cases.push((d.clone(), b));
+            }
+        }
         let a = par_for(seq_cases.len(), |ci, acc| {
             let (dir, b) = &seq_cases[ci];
             let mk = |id: u8| -> Vec<Req> {
@@ -591,7 +739,7 @@ pub fn run_c11(run: &RunInfo) -> Summary {
         transitions: acc.get("transitions"),
         traces_validated: execs,
         distinct_nontrivial: acc.set_len("outcomes"),
-        rule: format!("{} payload directories on disk (none, each of the 21 recognised paths alone, all pairs and triples over six representative paths, all 21 together incl. a 200 KiB file; each with and without unrelated files; file sizes 0,1,B-1,B,B+1,2B,2B+1) x block sizes {{1,2,3,8,255,256,1024,32768}} ({}) x all request scripts of length <= 2 (3 for small directories in thorough) over {{announced ids, a recognised-but-absent id, 0x77}} x offsets {{0,1,B-1,B,size-1,size,size+1,2^32-1}} + requests without id / offset / file container / TLV, ended by completion or abort; plus whole-file uploads (one file front to back, two files one after the other, two files alternately) for file sizes up to 200 KiB incl. 65535/65536/65537 and block sizes that do and do not divide 65536. File content is a function of (id, offset, seed). distinct_nontrivial = distinct (directory, block, script, ending) cases", cases.len(), if thorough { "all combinations" } else { "two block sizes per shape, rotating" }),
+        rule: format!("{} payload directories on disk (none, each of the 21 recognised paths alone, all pairs and triples over six representative paths, all 21 together incl. a 200 KiB file; each with and without unrelated files; file sizes 0,1,B-1,B,B+1,2B,2B+1) x block sizes {{1,2,3,8,255,256,1024,32768}} ({}) x all request scripts of length <= 2 (3 for small directories in thorough) over {{announced ids, a recognised-but-absent id, 0x77}} x offsets {{0,1,B-1,B,size-1,size,size+1,2^32-1}} + requests without id / offset / file container / TLV, ended by completion or abort; plus whole-file uploads (one file front to back, two files one after the other, two files alternately) for file sizes up to 200 KiB incl. 65535/65536/65537 and block sizes that do and do not divide 65536, and for every block size 1..=300 on a 613-byte file. File content is a function of (id, offset, seed). distinct_nontrivial = distinct (directory, block, script, ending) cases", cases.len(), if thorough { "all combinations" } else { "two block sizes per shape, rotating" }),
         exhaustive: true,
         required_witnesses: vec![
             "valid requests were answered with the file's bytes".into(),
